@@ -524,6 +524,57 @@ func (g *Gen) genSC(op string) *world.SCAction {
 			}
 		}
 	case "pause", "unpause":
+	case "drop":
+		// a credit message from the metachain: mostly the ESDT system contract, sometimes another
+		// metachain contract (for which no exemption applies)
+		caller := append([]byte{}, vmcommon.ESDTSCAddress...)
+		if g.R.Intn(3) == 0 {
+			caller = g.W.U.MetaAddrs[g.R.Intn(len(g.W.U.MetaAddrs))]
+		}
+		a.Addr2 = hx(caller)
+		a.Addr = hx(g.anyAccount())
+		a.CallType = []int{0, 0, 0, 1, 2, 3}[g.R.Intn(6)]
+		a.ReturnErr = g.R.Intn(5) == 0
+		a.Amount = big.NewInt(int64(1 + g.R.Intn(50))).String()
+		hs := g.Holdings()
+		var nfts []Holding
+		for _, h := range hs {
+			if h.Nonce > 0 && g.W.Tok(h.Token) != nil {
+				nfts = append(nfts, h)
+			}
+		}
+		if len(nfts) > 0 && g.R.Intn(4) != 0 {
+			h := nfts[g.R.Intn(len(nfts))]
+			a.Token = hx(h.Token)
+			a.Nonce = h.Nonce
+			if g.R.Intn(2) == 0 {
+				a.Addr = hx(h.Addr) // into an account that holds this very nonce
+			}
+			meta := spec.CloneMeta(h.Tok.Meta)
+			switch g.R.Intn(4) {
+			case 0:
+				meta.Hash = append([]byte("other-"), meta.Hash...) // different hash under the same token and nonce
+				a.Twin = true
+				a.Addr = hx(h.Addr)
+			case 1:
+				meta.URIs = append(meta.URIs, []byte("diverged")) // same hash, diverged URIs
+			}
+			amt, _ := new(big.Int).SetString(a.Amount, 10)
+			a.Payload = hx(spec.EncodeToken(&spec.Token{Type: 1, Value: amt, Meta: meta}))
+			a.Fn = []string{spec.FnESDTNFTTransfer, spec.FnMultiTransfer}[g.R.Intn(2)]
+		} else {
+			var ft []*world.TokenInfo
+			for _, x := range g.W.U.Tokens {
+				if x.Kind == world.KindFungible {
+					ft = append(ft, x)
+				}
+			}
+			if len(ft) == 0 {
+				return nil
+			}
+			a.Token = hx(ft[g.R.Intn(len(ft))].ID)
+			a.Fn = []string{spec.FnESDTTransfer, spec.FnMultiTransfer}[g.R.Intn(2)]
+		}
 	case "handover":
 		var cands []*world.TokenInfo
 		for _, x := range g.W.U.Tokens {
